@@ -31,7 +31,8 @@ def parse_kwargs(cfg, k):
     kw = {"ppi": 96.0}
     for name, v, kk in (("width", cfg[0], k), ("height", cfg[1], k + 1)):      # either may be supplied on its own
         if v != []:
-            kw[name] = float(rat(v)) if k % 2 == 0 else docutil.length(["abs", v], kk)
+            # a number, a string with a unit, or a Length object
+            kw[name] = float(rat(v)) if k % 3 == 0 else (docutil.length(["abs", v], kk) if k % 3 == 1 else svg.Length(docutil.length(["abs", v], kk)))
     if cfg[2]:
         kw["transform"] = docutil.TF_STR[cfg[2]]
     return kw
